@@ -264,6 +264,13 @@ def embedded_count_filter(k: int) -> Dict[str, Any]:
     return {"t": "filter", "e": {"t": "cmp", "op": ">", "l": {"t": "call", "name": "count", "args": [inner]}, "r": {"t": "lit", "v": k}}}
 
 
+# [?$..a] / [?count($..*) > K]: the same, anchored at the root of the query argument
+EMBEDDED_ROOT_DESC_FILTER = {"t": "filter", "e": {"t": "root", "q": {"segs": [{"k": "desc", "sels": [{"t": "name", "v": "a"}], "sh": True}]}}}
+def embedded_root_count_filter(k: int) -> Dict[str, Any]:
+    inner = {"t": "root", "q": {"segs": [{"k": "desc", "sels": [{"t": "wild"}], "sh": True}]}}
+    return {"t": "filter", "e": {"t": "cmp", "op": ">", "l": {"t": "call", "name": "count", "args": [inner]}, "r": {"t": "lit", "v": k}}}
+
+
 PREFIX_SELS = [{"t": "wild"}, {"t": "name", "v": "a"}, {"t": "index", "v": 0}, {"t": "index", "v": -1}]
 
 
@@ -340,7 +347,11 @@ def gen_scenario(rng, tier: str) -> Dict[str, Any]:
             segs.append({"k": "child", "sels": [rng.choice(PREFIX_SELS)], "sh": False})
     if rng.random() < 0.12 and L <= 150:
         # the descendant segment sits inside a filter: applied to each child of the input node
-        segs.append({"k": "child", "sels": [EMBEDDED_DESC_FILTER if rng.random() < 0.5 else embedded_count_filter(rng.choice((0, 0, 1, 3)))], "sh": False})
+        pool = [EMBEDDED_DESC_FILTER, embedded_count_filter(rng.choice((0, 0, 1, 3)))]
+        if shape["class"] != "wide":
+            # (a root-anchored walk per child is quadratic in the document: small documents only)
+            pool += [EMBEDDED_ROOT_DESC_FILTER, embedded_root_count_filter(rng.choice((0, 0, 1, 3)))]
+        segs.append({"k": "child", "sels": [rng.choice(pool)], "sh": False})
     else:
         segs.append({"k": "desc", "sels": rng.choice(DESC_SELS), "sh": rng.random() < 0.5})
         if rng.random() < 0.25:
@@ -348,6 +359,13 @@ def gen_scenario(rng, tier: str) -> Dict[str, Any]:
         elif rng.random() < 0.08 and L <= 60:
             segs.append({"k": "desc", "sels": rng.choice(DESC_SELS[:3]), "sh": rng.random() < 0.5})
     sc = {"L": L, "nondet": nondet, "spec": spec, "shape": shape, "query": {"segs": segs}, "config": rng.choice(CONFIG_MODES)}
+    # how the query is applied: "always completes / always raises" is a statement about every
+    # application, not just the first one of a freshly compiled query
+    if rng.random() < 0.3 and shape["class"] != "wide":
+        sc["plan"] = {
+            "warm": rng.choice((None, None, "good", "bad")),  # the compiled query meets another document first
+            "entries": [rng.choice(("find", "find", "finditer", "env.find")) for _ in range(rng.choice((2, 2, 3)))],
+        }
     if shape["class"] == "chain":
         sc["chain"] = chain
     return sc
@@ -376,24 +394,68 @@ def evaluate(sc: Dict[str, Any], sseed: int, profile: Dict[str, Any], feed: Opti
     simrandom.install(sim)
     clock = StepClock(cap)
     obs: Dict[str, Any]
-    try:
+    plan = sc.get("plan")
+    applications = 0
+
+    def one(call: Any) -> Dict[str, Any]:
         try:
-            with clock:
-                nodes = env.find(text, doc)
-            obs = {"status": "ok", "locs": [list(n.location) for n in nodes]}
+            nodes = list(call())
+            return {"status": "ok", "locs": [list(n.location) for n in nodes]}
         except StepBudgetExceeded:
-            obs = {"status": "step-budget"}
+            return {"status": "step-budget"}
         except jp.JSONPathRecursionError:
-            obs = {"status": "raise"}
+            return {"status": "raise"}
         except RecursionError:
-            obs = {"status": "interpreter-RecursionError"}
+            return {"status": "interpreter-RecursionError"}
         except MemoryError:
-            obs = {"status": "MemoryError"}
+            return {"status": "MemoryError"}
         except Exception as exc:  # noqa: BLE001
-            obs = {"status": f"other:{type(exc).__name__}"}
+            return {"status": f"other:{type(exc).__name__}"}
+
+    try:
+        with clock:
+            if plan is None:
+                obs = one(lambda: env.find(text, doc))
+                applications = 1
+            else:
+                # one compiled query, applied again and again to the same document object (and, first,
+                # perhaps to another one that completes, or to another one that must raise): every
+                # application is judged; the first that deviates is reported
+                try:
+                    compiled = env.compile(text)
+                except Exception as exc:  # noqa: BLE001
+                    compiled = None
+                    obs = {"status": f"other:{type(exc).__name__}"}
+                if compiled is not None:
+                    if plan.get("warm") == "good":
+                        one(lambda: compiled.find({"a": [1, {"a": 2}], "b": {"a": [3]}}))
+                    elif plan.get("warm") == "bad":
+                        loop: List[Any] = [1]
+                        loop.append({"a": loop})
+                        one(lambda: compiled.find(loop))
+                    obs = {"status": "ok", "locs": []}
+                    for k, entry in enumerate(plan["entries"]):
+                        clock.steps = 0  # each application has the budget of one
+                        if entry == "find":
+                            obs = one(lambda: compiled.find(doc))
+                        elif entry == "finditer":
+                            obs = one(lambda: compiled.finditer(doc))
+                        else:
+                            obs = one(lambda: env.find(text, doc))
+                        applications = k + 1
+                        obs["application"] = k + 1
+                        obs["entry"] = entry
+                        ok_status = obs["status"] == exp.get("status")
+                        if exp.get("status") == "ok" and ok_status:
+                            if sc["nondet"]:
+                                ok_status = Counter(map(tuple, obs["locs"])) == Counter(map(tuple, exp["locs"]))
+                            else:
+                                ok_status = obs["locs"] == exp["locs"]
+                        if not ok_status:
+                            break
     finally:
         simrandom.uninstall()
-    return {"text": text, "exp": exp, "obs": obs, "steps": clock.steps, "cap": cap, "trace": sim.log}
+    return {"text": text, "exp": exp, "obs": obs, "steps": clock.steps, "cap": cap, "trace": sim.log, "applications": applications}
 
 
 def judge(sc: Dict[str, Any], ev: Dict[str, Any]) -> Optional[Tuple[str, str]]:
@@ -403,6 +465,8 @@ def judge(sc: Dict[str, Any], ev: Dict[str, Any]) -> Optional[Tuple[str, str]]:
         return None
     mode = "nondet" if sc["nondet"] else "det"
     head = f"{ev['text']} limit={sc['L']} mode={mode} shape={sc['shape']} max_nesting={exp['max_nesting']}"
+    if obs.get("application"):
+        head += f" [application #{obs['application']} of one compiled query, via {obs['entry']}" + (f", after a {sc['plan']['warm']} document" if sc["plan"].get("warm") else "") + "]"
     if obs["status"] != exp["status"]:
         return (f"{exp['status']}->{obs['status']}", f"{head}: expected {exp['status']}, observed {obs['status']} after {ev['steps']} steps (cap {ev['cap']})")
     if exp["status"] == "ok":
@@ -455,6 +519,9 @@ def run_one(seed: int, tier: str, index: int) -> Dict[str, Any]:
     st[f"mode_{mode}"] += 1
     st[f"shape_{sc['shape']['class']}"] += 1
     st[f"limit_configured_{sc.get('config', 'class')}"] += 1
+    if sc.get("plan"):
+        st["scenarios_with_repeated_application"] += 1
+        st["applications_of_a_reused_compiled_query"] += ev.get("applications", 0)
     st[f"expected_{ev['exp']['status']}"] += 1
     st[f"observed_{ev['obs']['status']}"] += 1
     st["decisions"] += len(ev["trace"])
